@@ -321,10 +321,25 @@ func ruleValidateBeforeInsert(c *core.Ctx) {
 			ii = i
 		}
 	}
-	ok := vi >= 0 && ii > vi && vIf != nil && types.ExprString(vIf.Cond) == "schema != nil" && vIf.Else == nil
+	schemaNonNil := false
+	if vIf != nil {
+		if be, isBin := ast.Unparen(vIf.Cond).(*ast.BinaryExpr); isBin && be.Op == token.NEQ && astx.IsNilExpr(info, be.Y) {
+			if t := info.TypeOf(be.X); t != nil && astx.RecvTypeName(t) == "Schema" {
+				schemaNonNil = true
+			}
+		}
+	}
+	ok := vi >= 0 && ii > vi && vIf != nil && schemaNonNil && vIf.Else == nil
 	c.Check(ok, "DOM/validate-before-insert", key+":order", pos(c, val[0]), "if schema != nil { ValidateWithSchema } precedes InsertLog", "the log is not validated against the schema (whenever there is one) before it is inserted")
 	// the validated value is the log that is inserted, carrying the operation's output
-	okLog := types.ExprString(recvExpr(val[0])) == "log" && len(ins[0].Args) == 2 && types.ExprString(ins[0].Args[1]) == "&log"
+	okLog := false
+	if rid, isId := ast.Unparen(recvExpr(val[0])).(*ast.Ident); isId && len(ins[0].Args) == 2 {
+		if ue, isU := ast.Unparen(ins[0].Args[1]).(*ast.UnaryExpr); isU && ue.Op == token.AND {
+			if aid, isId := ast.Unparen(ue.X).(*ast.Ident); isId && info.ObjectOf(aid) == info.ObjectOf(rid) {
+				okLog = true
+			}
+		}
+	}
 	c.Check(okLog, "DOM/validate-before-insert", key+":same-log", pos(c, ins[0]), "log validated = log inserted", "the log validated against the schema is not the log that is inserted")
 }
 
@@ -456,50 +471,113 @@ func ruleDefaultMetadata(c *core.Ctx) {
 	}
 	info := d.Pkg.TypesInfo
 	key := declKey(d)
-	// inside the mapping closure: FindAccountSchema(<closure param>) → DefaultMetadata → field DefaultMetadata; Address is the same param
-	ok := false
-	ast.Inspect(d.Decl.Body, func(n ast.Node) bool {
-		fl, isFL := n.(*ast.FuncLit)
-		if !isFL || len(fl.Type.Params.List) != 1 || len(fl.Type.Params.List[0].Names) != 1 {
-			return true
+	// the literal {Account{Address: A}, DefaultMetadata: V}: V comes from DefaultMetadata() of the
+	// chart entry found for that same A (directly, or through a helper that is handed A)
+	state := 0 // +1 ok, -1 wrong, 0 not read
+	set := func(ok bool) {
+		if !ok {
+			state = -1
+		} else if state == 0 {
+			state = 1
 		}
-		param := fl.Type.Params.List[0].Names[0].Name
-		find := callsTo(info, fl.Body, named("FindAccountSchema"))
-		dm := callsTo(info, fl.Body, named("DefaultMetadata"))
-		if len(find) != 1 || len(dm) != 1 || len(find[0].Args) != 1 || types.ExprString(find[0].Args[0]) != param {
-			return true
+	}
+	sameVar := func(x, y ast.Expr) bool {
+		a, okA := ast.Unparen(x).(*ast.Ident)
+		b, okB := ast.Unparen(y).(*ast.Ident)
+		return okA && okB && info.ObjectOf(a) != nil && info.ObjectOf(a) == info.ObjectOf(b)
+	}
+	schemaGuarded := func(di *astx.DeclInfo, body *ast.BlockStmt, find *ast.CallExpr) bool {
+		root := astx.RootIdent(recvExpr(find))
+		if root == nil {
+			return false
 		}
-		fs := factStrings(info, fl.Body, find[0].Pos())
-		var cl *ast.CompositeLit
-		ast.Inspect(fl.Body, func(m ast.Node) bool {
-			if x, isCL := m.(*ast.CompositeLit); isCL && fieldOfCompositeLit(x, "DefaultMetadata") != nil {
-				cl = x
+		for _, ft := range astx.FactsAt(di.Pkg.TypesInfo, body, find.Pos()) {
+			be, ok := ast.Unparen(ft.Cond).(*ast.BinaryExpr)
+			if !ok || !astx.IsNilExpr(di.Pkg.TypesInfo, be.Y) {
+				continue
 			}
-			return true
-		})
-		if cl == nil {
+			if id, ok := ast.Unparen(be.X).(*ast.Ident); ok && di.Pkg.TypesInfo.ObjectOf(id) == di.Pkg.TypesInfo.ObjectOf(root) {
+				if (be.Op == token.NEQ && ft.Positive) || (be.Op == token.EQL && !ft.Positive) {
+					return true
+				}
+			}
+		}
+		return false
+	}
+	ast.Inspect(d.Decl.Body, func(n ast.Node) bool {
+		cl, isCL := n.(*ast.CompositeLit)
+		if !isCL {
 			return true
 		}
-		addrOK := false
+		v := fieldOfCompositeLit(cl, "DefaultMetadata")
+		if v == nil {
+			return true
+		}
+		var addr ast.Expr
 		ast.Inspect(cl, func(m ast.Node) bool {
-			if x, isCL := m.(*ast.CompositeLit); isCL {
-				if a := fieldOfCompositeLit(x, "Address"); a != nil && types.ExprString(a) == param {
-					addrOK = true
+			if x, ok := m.(*ast.CompositeLit); ok && x != cl {
+				if a := fieldOfCompositeLit(x, "Address"); a != nil {
+					addr = a
 				}
 			}
 			return true
 		})
-		ok = hasFact(fs, "schema != nil", true) && addrOK
+		if addr == nil {
+			return true
+		}
+		if !mayFlowFromCall(c, d, v, func(f *types.Func) bool { return f.Name() == "DefaultMetadata" }, nil, 0, map[types.Object]bool{}) {
+			set(false)
+			return true
+		}
+		// the lookup that feeds V
+		decided := false
+		for _, find := range callsTo(info, d.Decl.Body, named("FindAccountSchema")) {
+			if len(find.Args) != 1 {
+				continue
+			}
+			decided = true
+			set(sameVar(find.Args[0], addr) && schemaGuarded(d, d.Decl.Body, find))
+		}
+		if !decided {
+			if hc, ok := ast.Unparen(v).(*ast.CallExpr); ok {
+				if hf := astx.Callee(info, hc); hf != nil {
+					if hd := index(c).Decls[hf]; hd != nil && hd.Decl.Body != nil && hd.Obj.Pkg() == d.Obj.Pkg() {
+						// which parameter of the helper receives the address
+						pi := -1
+						for i, a := range hc.Args {
+							if sameVar(a, addr) {
+								pi = i
+							}
+						}
+						for _, find := range callsTo(hd.Pkg.TypesInfo, hd.Decl.Body, named("FindAccountSchema")) {
+							if len(find.Args) != 1 {
+								continue
+							}
+							decided = true
+							set(pi >= 0 && canonPath(hd, find.Args[0]) == fmt.Sprintf("p%d", pi) && schemaGuarded(hd, hd.Decl.Body, find))
+						}
+					}
+				}
+			}
+		}
 		return true
 	})
-	c.Check(ok, "SHAPE/default-metadata", key+":same-account", pos(c, d.Decl), "defaults of account X come from the chart entry matching X", "the default metadata attached to an account is not the chart's default for that very address (or is computed without a schema)")
+	msgDM := "the default metadata attached to an account is not the chart's default for that very address (or is computed without a schema)"
+	switch state {
+	case 1:
+		c.Pass("SHAPE/default-metadata", key+":same-account", pos(c, d.Decl), "defaults of account X come from the chart entry matching X")
+	case -1:
+		c.Fail("SHAPE/default-metadata", key+":same-account", pos(c, d.Decl), msgDM)
+	default:
+		c.Unrecognised("SHAPE/default-metadata", key+":same-account", pos(c, d.Decl), "the construction of AccountWithDefaultMetadata is not in a shape the rule reads")
+	}
 	// callers pass the schema they were given: createTransaction (runLog's schema) and importLog (FindSchema(log.SchemaVersion))
 	up := fn(c, pkgCtrl, "DefaultController", "upsertTransactionAccounts")
 	if up == nil {
 		return
 	}
 	fwd := callsTo(up.Pkg.TypesInfo, up.Decl.Body, named("AccountsWithDefaultMetadata"))
-	c.Check(len(fwd) == 1 && len(fwd[0].Args) == 2 && types.ExprString(fwd[0].Args[0]) == "schema", "SHAPE/default-metadata", declKey(up)+":forwards-schema", pos(c, up.Decl), "schema forwarded", "upsertTransactionAccounts does not forward the schema to AccountsWithDefaultMetadata")
+	c.Check(len(fwd) == 1 && len(fwd[0].Args) == 2 && strings.HasPrefix(canonPath(up, fwd[0].Args[0]), "p") && isParamObj(up, up.Pkg.TypesInfo.ObjectOf(astx.RootIdent(fwd[0].Args[0]))), "SHAPE/default-metadata", declKey(up)+":forwards-schema", pos(c, up.Decl), "schema forwarded", "upsertTransactionAccounts does not forward the schema to AccountsWithDefaultMetadata")
 	n := 0
 	for _, s := range index(c).SitesOf(up.Obj) {
 		if s.Encl == nil || strings.HasSuffix(c.Prog().Rel(s.Call.Pos()), "_test.go") {
@@ -507,10 +585,12 @@ func ruleDefaultMetadata(c *core.Ctx) {
 		}
 		n++
 		arg := ""
+		okArg := false
 		if len(s.Call.Args) >= 3 {
 			arg = types.ExprString(s.Call.Args[2])
+			okArg = !astx.IsNilExpr(s.Pkg.TypesInfo, s.Call.Args[2])
 		}
-		c.Check(arg == "schema", "SHAPE/default-metadata", enclKey(pkgCtrl, s.Encl)+":passes-schema", pos(c, s.Call), "schema passed", "the schema of the write is not handed to upsertTransactionAccounts ("+arg+"): accounts declared by the chart are created without their default metadata")
+		c.Check(okArg, "SHAPE/default-metadata", enclKey(pkgCtrl, s.Encl)+":passes-schema", pos(c, s.Call), "schema passed", "the schema of the write is not handed to upsertTransactionAccounts ("+arg+"): accounts declared by the chart are created without their default metadata")
 	}
 	c.Floor("SHAPE/default-metadata", "upsertTransactionAccounts call sites", n, 2)
 }
